@@ -335,6 +335,23 @@ h2g_year(int s, int HY)
 
 		vd_beat();
 		if (cov == 2) {
+			/* the month that begins at the table's closing entry: its length is not in the table, so whether
+			 * it belongs to the calendar is left open -- but the two directions must agree: a date that maps
+			 * must come back as itself */
+			for (unsigned d = 1; d <= 29; d++) {
+				const echs_instant_t h = mkinst(s, HY, m, d);
+				const echs_instant_t g = echs_instant_rescale(h, SCALE_GREGORIAN);
+				vd_sh->evals++;
+				if (!echs_nul_instant_p(g)) {
+					const echs_instant_t back = echs_instant_rescale(g, (echs_scale_t)s);
+					if (echs_nul_instant_p(back) || back.y != h.y || back.m != h.m || back.d != h.d) {
+						snprintf(sig, sizeof(sig), "cover-last-month-one-way/%s", tname[s]);
+						vd_viol(sig, "%s: Hijri %d-%02d-%02u (the month at the table's closing entry) maps to %s, which maps back to %s",
+							sname[s], HY, m, d, hstr(b1, sizeof(b1), g), echs_nul_instant_p(back) ? "nul" : hstr(b2, sizeof(b2), back));
+						break;
+					}
+				}
+			}
 			have_prev = false;
 			continue;
 		} else if (cov != 0) {
